@@ -217,6 +217,51 @@ fn protect_double_minus(unop: &UnOp, expression: Expression) -> Expression {
     expression
 }
 
+/// When redundant parentheses are removed, the comments attached to them must be kept.
+/// Returns the comments to append to the leading and to the trailing trivia of the inner expression.
+fn removed_parentheses_comments(
+    ctx: &Context,
+    contained: &ContainedSpan,
+    shape: Shape,
+) -> (Vec<Token>, Vec<Token>) {
+    let (start_parens, end_parens) = contained.tokens();
+    let leading_comments = start_parens
+        .leading_trivia()
+        .filter(|token| trivia_util::trivia_is_comment(token))
+        .flat_map(|x| {
+            vec![
+                create_indent_trivia(ctx, shape),
+                x.to_owned(),
+                create_newline_trivia(ctx),
+            ]
+        })
+        // .chain(std::iter::once(create_indent_trivia(ctx, shape)))
+        .collect();
+
+    // Comments just before the closing parenthesis, e.g. `(x --[[comment]])`, are kept as well
+    let trailing_comments = end_parens
+        .leading_trivia()
+        .chain(end_parens.trailing_trivia())
+        .filter(|token| trivia_util::trivia_is_comment(token))
+        .flat_map(|x| {
+            // Prepend a single space beforehand
+            vec![Token::new(TokenType::spaces(1)), x.to_owned()]
+        })
+        .collect();
+
+    (leading_comments, trailing_comments)
+}
+
+/// Whether there is a comment directly after the opening parenthesis, e.g. `( --[[comment]] x)`.
+/// We keep such parentheses even if they are redundant: there is no good place to move the comment to
+fn comment_after_opening_parenthesis(contained: &ContainedSpan) -> bool {
+    contained
+        .tokens()
+        .0
+        .trailing_trivia()
+        .any(trivia_util::trivia_is_comment)
+}
+
 /// Formats an Expression node
 pub fn format_expression(ctx: &Context, expression: &Expression, shape: Shape) -> Expression {
     format_expression_internal(ctx, expression, ExpressionContext::Standard, shape)
@@ -287,39 +332,40 @@ fn format_expression_internal(
             // If not, just format and return the internal expression. Otherwise, format the parentheses
             let use_internal_expression = check_excess_parentheses(expression, context);
 
+            let keep_parentheses = keep_parentheses || comment_after_opening_parenthesis(contained);
+
             // If the context is for a prefix, we should always keep the parentheses, as they are always required
             if use_internal_expression && !keep_parentheses {
                 // Get the leading and trailing comments from contained span and append them onto the expression
-                let (start_parens, end_parens) = contained.tokens();
-                let leading_comments = start_parens
-                    .leading_trivia()
-                    .filter(|token| trivia_util::trivia_is_comment(token))
-                    .flat_map(|x| {
-                        vec![
-                            create_indent_trivia(ctx, shape),
-                            x.to_owned(),
-                            create_newline_trivia(ctx),
-                        ]
-                    })
-                    // .chain(std::iter::once(create_indent_trivia(ctx, shape)))
-                    .collect();
-
-                let trailing_comments = end_parens
-                    .trailing_trivia()
-                    .filter(|token| trivia_util::trivia_is_comment(token))
-                    .flat_map(|x| {
-                        // Prepend a single space beforehand
-                        vec![Token::new(TokenType::spaces(1)), x.to_owned()]
-                    })
-                    .collect();
+                let (leading_comments, trailing_comments) =
+                    removed_parentheses_comments(ctx, contained, shape);
 
                 // Keep the context: the parentheses we drop may wrap further parentheses which are required, e.g. `((-x)) ^ y`
                 format_expression_internal(ctx, expression, context, shape)
                     .update_leading_trivia(FormatTriviaType::Append(leading_comments))
                     .update_trailing_trivia(FormatTriviaType::Append(trailing_comments))
             } else {
+                let mut contained = format_contained_span(ctx, contained, shape);
+
+                // A single line comment directly after the opening parenthesis must be terminated by a newline,
+                // otherwise it swallows the expression
+                if contained
+                    .tokens()
+                    .0
+                    .has_trailing_comments(CommentSearch::Single)
+                {
+                    let (start_parens, end_parens) = contained.tokens();
+                    contained = ContainedSpan::new(
+                        start_parens.update_trailing_trivia(FormatTriviaType::Append(vec![
+                            create_newline_trivia(ctx),
+                            create_indent_trivia(ctx, shape.increment_additional_indent()),
+                        ])),
+                        end_parens.to_owned(),
+                    );
+                }
+
                 Expression::Parentheses {
-                    contained: format_contained_span(ctx, contained, shape),
+                    contained,
                     expression: Box::new(format_expression(ctx, expression, shape + 1)), // 1 = opening parentheses
                 }
             }
@@ -1367,8 +1413,12 @@ fn format_hanging_expression_(
             // If not, just format and return the internal expression. Otherwise, format the parentheses
             let use_internal_expression = check_excess_parentheses(expression, expression_context);
 
+            let keep_parentheses = keep_parentheses || comment_after_opening_parenthesis(contained);
+
             // If the context is for a prefix, we should always keep the parentheses, as they are always required
             if use_internal_expression && !keep_parentheses {
+                let (leading_comments, trailing_comments) =
+                    removed_parentheses_comments(ctx, contained, lhs_shape);
                 format_hanging_expression_(
                     ctx,
                     expression,
@@ -1376,6 +1426,8 @@ fn format_hanging_expression_(
                     expression_context,
                     lhs_range,
                 )
+                .update_leading_trivia(FormatTriviaType::Append(leading_comments))
+                .update_trailing_trivia(FormatTriviaType::Append(trailing_comments))
             } else {
                 let contained = format_contained_span(ctx, contained, lhs_shape);
 
@@ -1385,6 +1437,7 @@ fn format_hanging_expression_(
 
                 let expression_str = formatted_expression.to_string();
                 if !contains_comments(expression)
+                    && !comment_after_opening_parenthesis(&contained)
                     && !lhs_shape.add_width(2 + expression_str.len()).over_budget()
                 {
                     // The expression inside the parentheses is small, we do not need to break it down further
